@@ -460,3 +460,57 @@ func init() {
 	externals["sort.Slice"] = extSortSlice(false)
 	externals["sort.SliceStable"] = extSortSlice(true)
 }
+
+// reflect.DeepEqual on the shapes the analysed code uses it for (comparison with a nil / zero interface or pointer, comparable scalars);
+// anything that would need a deep walk is unsupported.
+func extDeepEqual(fr *frame, args []value) value {
+	a, aok := args[0].(iface)
+	b, bok := args[1].(iface)
+	if !aok || !bok {
+		unsupported("reflect.DeepEqual of %T, %T", args[0], args[1])
+	}
+	if a.t == nil || b.t == nil {
+		return a.t == nil && b.t == nil
+	}
+	if !types.Identical(a.t, b.t) {
+		return false
+	}
+	switch av := a.v.(type) {
+	case *value:
+		bv := b.v.(*value)
+		if av == bv {
+			return true
+		}
+		if av == nil || bv == nil {
+			return false
+		}
+		unsupported("reflect.DeepEqual of two different non-nil pointers")
+	case iface:
+		return extDeepEqual(fr, []value{av, b.v})
+	case bool, int, int8, int16, int32, int64, uint, uint8, uint16, uint32, uint64, uintptr, string, float32, float64:
+		return equals(a.t, a.v, b.v)
+	}
+	unsupported("reflect.DeepEqual of %T", a.v)
+	return nil
+}
+
+func extPoolGet(fr *frame, args []value) value {
+	p := args[0].(*value)
+	st := (*p).(structure)
+	newFn := st[len(st)-1]
+	switch f := newFn.(type) {
+	case *ssa.Function:
+		if f == nil {
+			return iface{}
+		}
+	case nil:
+		return iface{}
+	}
+	return call(fr.i, fr, token.NoPos, newFn, nil)
+}
+
+func init() {
+	externals["reflect.DeepEqual"] = extDeepEqual
+	externals["(*sync.Pool).Get"] = extPoolGet
+	externals["(*sync.Pool).Put"] = extNop
+}
